@@ -84,4 +84,17 @@ structure CellV (R : Type) where
   refs : List R
   deriving Repr
 
+/-- `Anycast(depth, rewrite_pfx)` -/
+structure AnycastV where
+  depth : Nat
+  rewrite_pfx : Int
+  deriving Repr
+
+/-- what `store_address` reads of an internal `Address`: `wc`, `hash_part`, `anycast` (`None` or an `Anycast`). -/
+structure AddrV where
+  wc : Int
+  hash_part : Bytes
+  anycast : Option AnycastV
+  deriving Repr
+
 end TonVerif.Py
